@@ -167,6 +167,40 @@ def run(ctx):
             dist["invoked" if any(c[0] == kind for c in CALLS) else "not_reached"] += 1
         # isolation after use (both orders)
         base_rejects("after the subclass used it")
+        # ... also when the very SAME schema object goes from one instance to the next: a second instance of the subclass with
+        # another configuration runs its own extensions, and the other classes still reject the object
+        shared = copy.deepcopy(planted)
+        try:
+            v1 = Sub(shared, my_extra=42)
+            for d in doc_reaching(planted, path, g, kind):
+                try:
+                    v1.validate(copy.deepcopy(d))
+                except Exception:
+                    pass
+            del CALLS[:]
+            v2 = Sub(shared, my_extra=43)
+            for d in doc_reaching(planted, path, g, kind):
+                try:
+                    v2.validate(copy.deepcopy(d))
+                except Exception:
+                    pass
+            wrong = [c for c in CALLS if c[1] != Sub.__name__ or c[2] != 43]
+            if wrong:
+                violations.append({"signature": "child-class:%s" % kind,
+                                   "what": "second instance on the same schema object: extension ran with my_extra=%r (expected 43) at a %s position" % (wrong[0][2], pkind),
+                                   "replay": rp})
+            for cls, name in ((cerberus.Validator, "base Validator"), (other, "a sibling subclass")):
+                try:
+                    cls(shared)
+                    violations.append({"signature": "isolation:%s" % kind,
+                                       "what": "%s accepts the schema OBJECT a subclass has used (%s at a %s position)" % (name, kind, pkind), "replay": rp})
+                except cerberus.SchemaError:
+                    pass
+                except Exception as e:
+                    violations.append({"signature": "isolation-raise:%s" % type(e).__name__,
+                                       "what": "%s: %r instead of SchemaError for the schema object a subclass has used" % (name, e), "replay": rp})
+        except cerberus.SchemaError:
+            pass
         # the subclass's own extensions of other kinds still known (tables not clobbered by the sibling)
         for k2 in ('rule', 'type', 'type-list', 'coercer', 'setter', 'check_with'):
             try:
